@@ -251,23 +251,24 @@ fn build_order_independence(ctx: &Ctx, st: &mut Stats) {
         Rng::new(ctx.seed(), 0x106_0000 + k).shuffle(&mut o);
         orders.push(o);
     }
-    let mut results: Vec<Vec<String>> = vec![];
-    for order in &orders {
-        let cases = &cases;
-        let r = std::thread::scope(|sc| {
-            sc.spawn(move || {
-                install_quiet_panic_hook();
-                let mut out = vec![String::new(); cases.len()];
-                for &i in order {
-                    out[i] = format!("{:?}", build(&cases[i].0, cases[i].1));
-                }
-                out
+    // one fresh thread per order, all at once
+    let results: Vec<Vec<String>> = std::thread::scope(|sc| {
+        let handles: Vec<_> = orders
+            .iter()
+            .map(|order| {
+                let cases = &cases;
+                sc.spawn(move || {
+                    install_quiet_panic_hook();
+                    let mut out = vec![String::new(); cases.len()];
+                    for &i in order {
+                        out[i] = format!("{:?}", build(&cases[i].0, cases[i].1));
+                    }
+                    out
+                })
             })
-            .join()
-            .unwrap_or_default()
-        });
-        results.push(r);
-    }
+            .collect();
+        handles.into_iter().map(|h| h.join().unwrap_or_default()).collect()
+    });
     for i in 0..n {
         st.evaluations += 1;
         st.decided += 1;
@@ -287,10 +288,18 @@ fn build_order_independence(ctx: &Ctx, st: &mut Stats) {
 
 fn cross_process(ctx: &Ctx, st: &mut Stats) {
     let exe = std::env::current_exe().unwrap();
-    let n = if ctx.thorough { 40_000 } else { 6_000 };
+    let n = if ctx.thorough { 40_000 } else { 2_500 };
     let procs = if ctx.thorough { 32 } else { 6 };
     let cases = batch(ctx.seed(), n);
-    let reference: Vec<String> = cases.iter().map(|(t, s)| format!("{:?}", build(t, *s))).collect();
+    let reference: Vec<String> = {
+        let out = std::sync::Mutex::new(vec![String::new(); cases.len()]);
+        let tmp_run = Run::new("C10", "quick", 0, "exploration");
+        par_for(&tmp_run, cases.len(), |i, _| {
+            let r = format!("{:?}", build(&cases[i].0, cases[i].1));
+            out.lock().unwrap()[i] = r;
+        });
+        out.into_inner().unwrap()
+    };
     let mut children = vec![];
     for p in 0..procs {
         // half of the children run 16 threads behind a barrier
@@ -352,9 +361,10 @@ pub fn run(ctx: &Ctx) -> i32 {
         let tcs: Vec<String> = tcs.into_iter().map(|t| t.chars().take(12).collect()).collect();
         history_case(st, &mut rng, &tcs);
     });
+    if std::env::var("VERIF_TIMING").is_ok() { eprintln!("[timing] c10.rs block 1: {:.1}s", ctx.run.started.elapsed().as_secs_f64()); }
     // 2. hash-seed independence in process: R rebuilds, emphasis on repetition settings
-    let n = if ctx.thorough { 60_000 } else { 5_000 };
-    let r = if ctx.thorough { 64 } else { 8 };
+    let n = if ctx.thorough { 60_000 } else { 3_000 };
+    let r = if ctx.thorough { 64 } else { 5 };
     par_for(&ctx.run, n, |i, st| {
         let mut rng = Rng::new(seed, 0x102_0000 + i as u64);
         let al = &alphabets[i % 3];
@@ -365,6 +375,7 @@ pub fn run(ctx: &Ctx) -> i32 {
         }
         rebuild_case(st, &tcs, s, r, &mut rng);
     });
+    if std::env::var("VERIF_TIMING").is_ok() { eprintln!("[timing] c10.rs block 2: {:.1}s", ctx.run.started.elapsed().as_secs_f64()); }
     // uniformly random words over {a,b} / {a,b,c} with repetition conversion: the shape on which the
     // minimiser's hash-order dependence (D14) shows about once in 3000 sets
     let n = if ctx.thorough { 1_500_000 } else { 90_000 };
@@ -374,6 +385,7 @@ pub fn run(ctx: &Ctx) -> i32 {
         st.count("uniform_small_words");
         rebuild_case(st, &tcs, Settings::new(REP | if i % 5 == 0 { NOEND } else { 0 }), 4, &mut rng);
     });
+    if std::env::var("VERIF_TIMING").is_ok() { eprintln!("[timing] c10.rs block 3: {:.1}s", ctx.run.started.elapsed().as_secs_f64()); }
     // medium-sized inputs (many test cases / long test cases): size-dependent code paths
     let n = if ctx.thorough { 20_000 } else { 300 };
     par_for(&ctx.run, n, |i, st| {
@@ -387,6 +399,7 @@ pub fn run(ctx: &Ctx) -> i32 {
         let s = Settings::new(if i % 2 == 0 { REP } else { 0 } | if i % 5 == 0 { CI } else { 0 } | if i % 7 == 0 { NOEND } else { 0 });
         rebuild_case(st, &tcs, s, 3, &mut rng);
     });
+    if std::env::var("VERIF_TIMING").is_ok() { eprintln!("[timing] c10.rs block 4: {:.1}s", ctx.run.started.elapsed().as_secs_f64()); }
     // exhaustive small sets with repetition conversion: all permutations of up to 4 words
     let words: Vec<String> = gen::words(&["a", "b"], 3).into_iter().filter(|w| !w.is_empty()).collect();
     let subs = gen::subsets(words.len(), 3);
@@ -397,6 +410,7 @@ pub fn run(ctx: &Ctx) -> i32 {
         rebuild_case(st, &tcs, Settings::new(REP), 6, &mut rng);
         rebuild_case(st, &tcs, Settings::new(0), 6, &mut rng);
     });
+    if std::env::var("VERIF_TIMING").is_ok() { eprintln!("[timing] c10.rs block 5: {:.1}s", ctx.run.started.elapsed().as_secs_f64()); }
     // 3. separate processes (fresh hash seeds) and 16 racing threads
     {
         let mut st = Stats::new();
